@@ -86,6 +86,12 @@ for f in ("demo.cc", "notes.md"):
     if os.path.exists(f"{src}/{f}"): shutil.copy(f"{src}/{f}", f"{dst}/{f}")
 prop = json.loads([l for l in open("/verif/properties.jsonl") if json.loads(l)["id"] == ID][0])
 meta["breaks_property"] = ID; meta["property_title"] = prop["title"]
+if os.path.exists(f"{src}/notes.md"):    # what the change does and what it needs in order to manifest, in the author's words
+    _l = [x.strip() for x in open(f"{src}/notes.md").read().splitlines() if x.strip()]
+    meta["what_it_does"] = _l[0].lstrip("# ").strip() if _l else ""
+    _s = re.split(r"(?<=[.;])\s+", " ".join(_l[1:]))
+    _p = [x for x in _s if re.search(r"trigger|need|only|when|wrong for|fails|affected|band|input", x, re.I)][:3] or _s[:3]
+    meta["needs_to_manifest"] = re.sub(r"\s+", " ", " ".join(_p))[:500] or "see notes.md"
 json.dump(meta, open(f"{dst}/meta.json", "w"), indent=1)
 print(f"{ID}-{int(n)+OFF}: applies={meta['applies']} suite={meta['suite_with_change']} demo_with={meta['demo_exit_with_change']} demo_without={meta['demo_exit_without_change']} confirmed={meta['confirmed']} detected_by={meta['detected_by']}")
 for p, r in results.items():
